@@ -238,8 +238,21 @@ def run(tier, seed):
         if ms is None or ms.startswith("bad-op"):
             kdis.append({"config": text, "problem": "model: %s" % ms})
             continue
-        mo = g.parse_model(ms)
+        body, _, rows_txt = ms.partition(" || rows=")
+        mo = g.parse_model(body + " || ")
         im = g.parse_impl(r)
+        # K on the collector's fan-out: the model's rows per file vs the real CSV files
+        mfiles = {}
+        for it in ([] if rows_txt in ("-", "") else rows_txt.split(",")):
+            ob, ac, sg, ts_, val_ = it.split(":", 4)
+            fn = "%s.%s.%s.csv" % (g.unhex(ob), g.unhex(ac), g.unhex(sg))
+            tsq = F(*map(int, ts_.split("/")))
+            mfiles.setdefault(fn, []).append(("now" if tsq > 10**8 else tsq, g.parse_model_val(val_)))
+        for fn in set(mfiles) | {k for k in csv if csv[k]}:
+            real, mod = csv.get(fn, []), mfiles.get(fn, [])
+            if len(real) != len(mod) or not all(row_eq(x, y) for x, y in zip(real, mod)):
+                kdis.append({"config": text, "lines": lines, "file": fn, "real_rows": [str(x) for x in real][:8], "model_rows": [str(x) for x in mod][:8]})
+                break
         keep = lambda it: it[0] == "obs" and it[3][0] != ""
         a_ = [(it[3], it[4], "now" if float(it[1]) > 1e8 else round(float(it[1]), 3)) for it in im["stream"] if keep(it)]
         b_ = [(it[3], it[4], "now" if float(it[1]) > 1e8 else round(float(it[1]), 3)) for it in mo["stream"] if keep(it)]
